@@ -30,11 +30,16 @@ Proof.
   - intro H. destruct (slice_eqb a b) eqn:E; [apply slice_eqb_eq in E; contradiction | reflexivity].
 Qed.
 
-Lemma mem_slice_In : forall x l, mem_slice x l = true <-> In x l.
+Lemma key_eqb_eq : forall a b, key_eqb a b = true <-> a = b.
 Proof.
-  intros x l. unfold mem_slice. rewrite existsb_exists. split.
-  - intros [y [Hy E]]. apply slice_eqb_eq in E. subst. exact Hy.
-  - intro H. exists x. split; [exact H | apply slice_eqb_refl].
+  intros [a1 a2] [b1 b2]. unfold key_eqb. cbn [fst snd]. rewrite andb_true_iff, slice_eqb_eq, str_eqb_eq.
+  split; [intros [? ?]; congruence | intro H; inversion H; auto].
+Qed.
+Lemma mem_key_In : forall x l, mem_key x l = true <-> In x l.
+Proof.
+  intros x l. unfold mem_key. rewrite existsb_exists. split.
+  - intros [y [Hy E]]. apply key_eqb_eq in E. subst. exact Hy.
+  - intro H. exists x. split; [exact H | apply key_eqb_eq; reflexivity].
 Qed.
 
 (** * [sub] *)
@@ -67,24 +72,7 @@ Proof.
   intro s. unfold sub, len. cbn [N.to_nat skipn]. rewrite N.sub_0_r, Nnat.Nat2N.id. apply firstn_all.
 Qed.
 
-(** * dedupe / sort *)
-Lemma dedupe_props : forall ps seen,
-  NoDup (map p_slice (dedupe seen ps)) /\
-  (forall p, In p (dedupe seen ps) -> In p ps /\ ~ In (p_slice p) seen).
-Proof.
-  induction ps as [|p ps IH]; intro seen; cbn [dedupe].
-  - split; [constructor | intros ? []].
-  - destruct (mem_slice (p_slice p) seen) eqn:E.
-    + destruct (IH seen) as [H1 H2]. split; [exact H1|].
-      intros q Hq. destruct (H2 q Hq). split; [right|]; assumption.
-    + destruct (IH (p_slice p :: seen)) as [H1 H2]. split.
-      * cbn [map]. constructor; [|exact H1]. intro Hin. apply in_map_iff in Hin.
-        destruct Hin as [q [Eq Hq]]. destruct (H2 q Hq) as [_ Hn]. apply Hn. left. congruence.
-      * intros q [Hq|Hq].
-        -- subst q. split; [left; reflexivity|]. intro Hin. apply mem_slice_In in Hin. congruence.
-        -- destruct (H2 q Hq) as [Ha Hb]. split; [right; exact Ha|]. intro Hin. apply Hb. right. exact Hin.
-Qed.
-
+(** * sort *)
 Lemma insert_perm : forall p l, Permutation (insert_by_start p l) (p :: l).
 Proof.
   intros p l. induction l as [|q l IH]; cbn [insert_by_start].
@@ -117,90 +105,72 @@ Qed.
 Lemma sort_sorted : forall ps, ssorted (sort_by_start ps).
 Proof. induction ps as [|p ps IH]; cbn [sort_by_start]; [exact I | apply insert_sorted; exact IH]. Qed.
 
-Lemma find_patch_unique : forall all p,
-  NoDup (map p_slice all) -> In p all -> find_patch (p_slice p) all = Some p.
+Lemma find_from_none : forall ps r,
+  (forall q, In q ps -> p_slice q <> r) -> find_from r ps = None.
 Proof.
-  induction all as [|q all IH]; intros p Hnd Hin; [destruct Hin|].
-  cbn [find_patch]. cbn [map] in Hnd. inversion Hnd as [|? ? Hnot Hnd']; subst.
-  destruct Hin as [Hin|Hin].
-  - subst q. rewrite slice_eqb_refl. reflexivity.
-  - destruct (slice_eqb (p_slice q) (p_slice p)) eqn:E.
-    + apply slice_eqb_eq in E. exfalso. apply Hnot. rewrite E. apply in_map. exact Hin.
-    + apply IH; assumption.
-Qed.
-Lemma find_patch_none : forall all r,
-  (forall q, In q all -> p_slice q <> r) -> find_patch r all = None.
-Proof.
-  induction all as [|q all IH]; intros r H; cbn [find_patch]; [reflexivity|].
+  induction ps as [|q ps IH]; intros r H; cbn [find_from]; [reflexivity|].
   destruct (slice_eqb (p_slice q) r) eqn:E.
   - apply slice_eqb_eq in E. exfalso. apply (H q); [left; reflexivity | exact E].
   - apply IH. intros q' Hq'. apply H. right. exact Hq'.
 Qed.
+Lemma find_from_skip : forall skipped p rest,
+  (forall q, In q skipped -> p_slice q <> p_slice p) ->
+  find_from (p_slice p) (skipped ++ p :: rest) = Some (p, rest).
+Proof.
+  induction skipped as [|q sk IH]; intros p rest H; cbn [app find_from].
+  - rewrite slice_eqb_refl. reflexivity.
+  - destruct (slice_eqb (p_slice q) (p_slice p)) eqn:E.
+    + apply slice_eqb_eq in E. exfalso. apply (H q); [left; reflexivity | exact E].
+    + apply IH. intros q' Hq'. apply H. right. exact Hq'.
+Qed.
 
 (** * The slicing loop followed by the build loop is [splice] of the non-overlapping patches *)
-Lemma build_app : forall a b ps src, build (a ++ b) ps src = build a ps src ++ build b ps src.
-Proof. intros. unfold build. apply flat_map_app. Qed.
-
 Lemma slice_loop_nil_so : forall p ps idx n,
   slice_loop (p :: ps) [] idx n =
   (if idx <? p_s p then [(idx, p_s p)] else []) ++
   (if p_s p <? idx then slice_loop ps [] idx n else p_slice p :: slice_loop ps [] (p_e p) n).
 Proof. intros. cbn [slice_loop pop_so app]. destruct (p_s p <? idx); reflexivity. Qed.
 
-Lemma build_loop : forall all src,
-  NoDup (map p_slice all) -> (forall p, In p all -> p_s p <= p_e p) ->
-  forall rest pre idx, all = pre ++ rest -> ssorted rest ->
-    (forall q, In q pre -> p_s q < idx \/ p_e q <= idx) ->
-    build (slice_loop rest [] idx (len src)) all src = splice src idx (drop_overlap idx rest).
+Lemma build_loop : forall src rest skipped idx,
+  ssorted rest -> (forall q, In q skipped -> p_s q < idx) ->
+  build (slice_loop rest [] idx (len src)) (skipped ++ rest) src = splice src idx (drop_overlap idx rest).
 Proof.
-  intros all src Hnd Hwf. induction rest as [|p rest IH]; intros pre idx Hall Hs Hpre.
-  - rewrite app_nil_r in Hall. subst pre. cbn [slice_loop drop_overlap splice].
+  intros src. induction rest as [|p rest IH]; intros skipped idx Hs Hsk.
+  - rewrite app_nil_r. cbn [slice_loop drop_overlap splice].
     destruct (idx <? len src) eqn:E.
-    + apply N.ltb_lt in E. unfold build. cbn [flat_map]. rewrite app_nil_r. unfold region_text.
-      rewrite find_patch_none; [reflexivity|].
-      intros q Hq Heq. unfold p_slice in Heq. inversion Heq. destruct (Hpre q Hq); lia.
+    + apply N.ltb_lt in E. cbn [build]. rewrite find_from_none.
+      * cbn [fst snd]. apply app_nil_r.
+      * intros q Hq Heq. unfold p_slice in Heq. inversion Heq. specialize (Hsk q Hq). lia.
     + apply N.ltb_ge in E. rewrite sub_nil by exact E. reflexivity.
-  - rewrite slice_loop_nil_so. rewrite build_app. destruct Hs as [Hhead Hs].
-    assert (Hp : In p all) by (subst all; apply in_or_app; right; left; reflexivity).
-    match goal with |- build ?g all src ++ _ = _ =>
-      assert (Hgap : build g all src = sub src idx (p_s p)) end.
-    { destruct (idx <? p_s p) eqn:E.
-      - apply N.ltb_lt in E. unfold build. cbn [flat_map]. rewrite app_nil_r. unfold region_text.
-        rewrite find_patch_none; [reflexivity|].
-        intros q Hq Heq. unfold p_slice in Heq. inversion Heq. subst all.
-        apply in_app_or in Hq. destruct Hq as [Hq|[Hq|Hq]].
-        + destruct (Hpre q Hq); lia.
-        + subst q. lia.
-        + specialize (Hhead q Hq). lia.
-      - apply N.ltb_ge in E. rewrite sub_nil by exact E. reflexivity. }
-    rewrite Hgap. cbn [drop_overlap]. destruct (p_s p <? idx) eqn:E.
-    + apply N.ltb_lt in E. rewrite sub_nil by lia. cbn [app].
-      apply (IH (pre ++ [p])); [rewrite <- app_assoc; exact Hall | exact Hs |].
-      intros q Hq. apply in_app_or in Hq. destruct Hq as [Hq|[Hq|[]]]; [apply Hpre; exact Hq | subst q; left; exact E].
-    + apply N.ltb_ge in E. cbn [splice]. f_equal.
-      change (p_slice p :: slice_loop rest [] (p_e p) (len src)) with ([p_slice p] ++ slice_loop rest [] (p_e p) (len src)).
-      rewrite build_app. f_equal.
-      * unfold build. cbn [flat_map]. rewrite app_nil_r. unfold region_text.
-        rewrite (find_patch_unique all p Hnd Hp). reflexivity.
-      * apply (IH (pre ++ [p])); [rewrite <- app_assoc; exact Hall | exact Hs |].
-        specialize (Hwf p Hp).
-        intros q Hq. apply in_app_or in Hq. destruct Hq as [Hq|[Hq|[]]].
-        -- destruct (Hpre q Hq); [left|right]; lia.
-        -- subst q. right. lia.
+  - destruct Hs as [Hhead Hs]. rewrite slice_loop_nil_so. cbn [drop_overlap].
+    assert (Hnone : idx < p_s p -> find_from (idx, p_s p) (skipped ++ p :: rest) = None).
+    { intro E. apply find_from_none. intros q Hq Heq. unfold p_slice in Heq. inversion Heq.
+      apply in_app_or in Hq. destruct Hq as [Hq|[Hq|Hq]].
+      - specialize (Hsk q Hq). lia.
+      - subst q. lia.
+      - specialize (Hhead q Hq). lia. }
+    destruct (p_s p <? idx) eqn:E.
+    + (* overlapping patch: skipped *)
+      apply N.ltb_lt in E. replace (idx <? p_s p) with false by (symmetry; apply N.ltb_ge; lia).
+      cbn [app]. replace (skipped ++ p :: rest) with ((skipped ++ [p]) ++ rest) by (rewrite <- app_assoc; reflexivity).
+      apply IH; [exact Hs|]. intros q Hq. apply in_app_or in Hq.
+      destruct Hq as [Hq|[Hq|[]]]; [apply Hsk; exact Hq | subst q; exact E].
+    + apply N.ltb_ge in E. cbn [splice].
+      assert (Hfind : find_from (p_slice p) (skipped ++ p :: rest) = Some (p, rest)).
+      { apply find_from_skip. intros q Hq Heq. unfold p_slice in Heq. inversion Heq. specialize (Hsk q Hq). lia. }
+      destruct (idx <? p_s p) eqn:G.
+      * apply N.ltb_lt in G. cbn [app build]. rewrite (Hnone G). cbn [fst snd]. f_equal.
+        rewrite Hfind. f_equal. apply (IH [] (p_e p) Hs). intros ? [].
+      * apply N.ltb_ge in G. rewrite sub_nil by exact G. cbn [app build]. rewrite Hfind. f_equal.
+        apply (IH [] (p_e p) Hs). intros ? [].
 Qed.
 
 Definition wf_ranges (ps : list patch) : Prop := forall p, In p ps -> p_s p <= p_e p.
 
-Theorem fix_string_spec : forall src ps, wf_ranges ps ->
-  fix_string src ps = splice src 0 (normalise ps).
+Theorem fix_string_spec : forall src ps, fix_string src ps = splice src 0 (normalise ps).
 Proof.
-  intros src ps Hwf. unfold fix_string, fix_string_so, normalise, generate_source_patches.
-  apply (build_loop _ src) with (pre := []).
-  - destruct (dedupe_props ps []) as [Hnd _].
-    eapply Permutation_NoDup; [|exact Hnd]. apply Permutation_map. apply Permutation_sym. apply sort_perm.
-  - intros p Hp. apply (Permutation_in _ (sort_perm _)) in Hp.
-    destruct (dedupe_props ps []) as [_ H]. apply Hwf. apply (H p Hp).
-  - reflexivity.
+  intros src ps. unfold fix_string, fix_string_so, normalise.
+  apply (build_loop src (generate_source_patches ps) [] 0).
   - apply sort_sorted.
   - intros ? [].
 Qed.
@@ -209,7 +179,7 @@ Qed.
 Fixpoint sd (idx : N) (ps : list patch) : Prop :=
   match ps with
   | [] => True
-  | p :: ps' => idx <= p_s p /\ p_s p <= p_e p /\ (forall q, In q ps' -> p_slice q <> p_slice p) /\ sd (p_e p) ps'
+  | p :: ps' => idx <= p_s p /\ p_s p <= p_e p /\ (forall q, In q ps' -> p_key q <> p_key p) /\ sd (p_e p) ps'
   end.
 Definition sorted_disjoint (ps : list patch) : Prop := sd 0 ps.
 
@@ -223,11 +193,11 @@ Lemma sd_weaken : forall ps i j, j <= i -> sd i ps -> sd j ps.
 Proof. destruct ps as [|p ps]; intros i j Hji H; [exact I|]. destruct H as [H1 H2]. split; [lia|exact H2]. Qed.
 
 Lemma dedupe_id : forall ps idx seen, sd idx ps ->
-  (forall q, In q ps -> ~ In (p_slice q) seen) -> dedupe seen ps = ps.
+  (forall q, In q ps -> ~ In (p_key q) seen) -> dedupe seen ps = ps.
 Proof.
   induction ps as [|p ps IH]; intros idx seen H Hseen; [reflexivity|].
-  cbn [dedupe]. destruct (mem_slice (p_slice p) seen) eqn:E.
-  - apply mem_slice_In in E. exfalso. apply (Hseen p); [left; reflexivity | exact E].
+  cbn [dedupe]. destruct (mem_key (p_key p) seen) eqn:E.
+  - apply mem_key_In in E. exfalso. apply (Hseen p); [left; reflexivity | exact E].
   - destruct H as [_ [_ [Hnd Hsd]]]. f_equal. apply (IH (p_e p)); [exact Hsd|].
     intros q Hq [Hin|Hin].
     + apply (Hnd q Hq). symmetry. exact Hin.
@@ -262,7 +232,7 @@ Proof. intros ps idx H p Hp. apply (sd_lower _ _ H p Hp). Qed.
 
 Corollary fix_string_sorted : forall src ps, sorted_disjoint ps -> fix_string src ps = splice src 0 ps.
 Proof.
-  intros src ps H. rewrite fix_string_spec by (apply (sd_wf _ _ H)). rewrite normalise_id by exact H. reflexivity.
+  intros src ps H. rewrite fix_string_spec. rewrite normalise_id by exact H. reflexivity.
 Qed.
 
 (** * Source text outside every patch survives (placeholders are untouched) *)
@@ -318,7 +288,7 @@ Qed.
 
 Lemma fix_string_nil : forall s, fix_string s [] = s.
 Proof.
-  intro s. rewrite fix_string_spec by (intros ? []). cbn. apply sub_full.
+  intro s. rewrite fix_string_spec. cbn. apply sub_full.
 Qed.
 
 Lemma fix_string_whole : forall s r, fix_string s [mkPatch 0 (len s) r] = r.
@@ -385,12 +355,15 @@ Example ex_untemplated : untemplated ex_tf /\ spans_file ex_tf ex_tree /\ root_s
 Proof. repeat split. Qed.
 
 Definition ex_ps : list patch := [mkPatch 4 5 [55]; mkPatch 0 3 [83]; mkPatch 4 5 [56]; mkPatch 2 4 [57]].
-Example ex_spec : wf_ranges ex_ps /\ normalise ex_ps = [mkPatch 0 3 [83]; mkPatch 4 5 [55]] /\
+Example ex_spec : normalise ex_ps = [mkPatch 0 3 [83]; mkPatch 4 5 [55]] /\
   fix_string ex_src ex_ps = [83;32;55;10].
 Proof.
-  split; [|split; reflexivity].
-  intros p Hp. cbn in Hp. repeat (destruct Hp as [Hp|Hp]; [subst p; cbn; lia|]). destruct Hp.
+  split; reflexivity.
 Qed.
+(* two different insertions at one source position are both applied, in order *)
+Example ex_two_insertions : sorted_disjoint [mkPatch 1 1 [65]; mkPatch 1 1 [66]] /\
+  fix_string [97; 98] [mkPatch 1 1 [65]; mkPatch 1 1 [66]] = [97; 65; 66; 98].
+Proof. split; [sd_tac | reflexivity]. Qed.
 Example ex_sorted : sorted_disjoint [mkPatch 0 3 [83]; mkPatch 3 3 [32]; mkPatch 4 5 [55]].
 Proof. sd_tac. Qed.
 
